@@ -22,7 +22,7 @@ RULE = (
     "(C06 ties those to the model), under both retention policies; the menu contains vectors with hgt < dup and hgt = 0. Non-trivial (input, vector): at least one of the inequalities is strict."
 )
 ASSUMPTIONS = ["costs compared are the implementations' own cost() values (validated by C06)", "coherent cost region only"]
-BUDGET = {"quick": 300, "thorough": 3000}
+BUDGET = {"quick": 900, "thorough": 3000}
 ALGOS = ("lca", "thl", "base_spfs", "ext_spfs", "base_uspfs", "superdtl")
 
 
